@@ -113,6 +113,8 @@
 (declare-fun strjoin ((Array (_ BitVec 64) Str) (_ BitVec 64) (_ BitVec 64) Str) Str)
 
 ;; []rune(s) and unicode/utf16.Encode as uninterpreted functions of the converted contents
+;; (the bound is stated for lengths up to 2^48 only: n + n wraps for n >= 2^62, which made the unguarded axiom
+;; unsatisfiable on its own - found by seeded change C08_c, now guarded by speccheck.py)
 (declare-fun runes.arr (BSeq) (Array (_ BitVec 64) (_ BitVec 32)))
 
 (declare-fun runes.len (BSeq) (_ BitVec 64))
@@ -122,7 +124,7 @@
 
 (declare-fun utf16.len ((Array (_ BitVec 64) (_ BitVec 32)) (_ BitVec 64) (_ BitVec 64)) (_ BitVec 64))
 (assert (forall ((a (Array (_ BitVec 64) (_ BitVec 32))) (o (_ BitVec 64)) (n (_ BitVec 64)))
-  (! (=> (bvsle #x0000000000000000 n) (and (bvsle #x0000000000000000 (utf16.len a o n)) (bvsle (utf16.len a o n) (bvadd n n)))) :pattern ((utf16.len a o n)))))
+  (! (=> (and (bvsle #x0000000000000000 n) (bvsle n #x0001000000000000)) (and (bvsle #x0000000000000000 (utf16.len a o n)) (bvsle (utf16.len a o n) (bvadd n n)))) :pattern ((utf16.len a o n)))))
 
 ;; mstypes.FileTime.Time as an uninterpreted function of the low and high words (C19: attributes reported faithfully)
 (declare-fun filetime ((_ BitVec 64) (_ BitVec 64)) (_ BitVec 128))
